@@ -49,7 +49,8 @@ CLAIMED = {
     ),
     "C20": dict(
         level="proof",
-        text="Three models. (1) [[OwnPropertyKeys]] over a storage whose iteration order is arbitrary: theorems sortNat_storage_independent "
+        text="Three models. (1) [[OwnPropertyKeys]] over a storage whose iteration order is arbitrary: theorems sortNat_storage_independent, "
+             "ownKeys_eq_spec (the model's order IS ECMA-262's: ascending array indices, then strings, then symbols in creation order) "
              "and ownKeys_storage_independent — for EVERY sequence of property definitions and deletions and ANY two admissible storages (two "
              "hash seeds, two allocation histories, dense or sparse) the reported key order is the same, i.e. a function of the history "
              "alone; the engine's Reflect.ownKeys (and eight derived enumerations) must equal the model's specification order on generated "
@@ -63,8 +64,7 @@ CLAIMED = {
              "evaluation order, must print byte-identical traces; objects handed across realms keep their own realm's intrinsics.",
         technique="Lean 4 proofs (key order independent of storage order; realm frame/isolation theorems; regenerated shared-state inventory with a classification theorem) + model-vs-engine correspondence on key histories and realm-slot scripts + repeated-run differentials under hostile histories, padded heaps and separate processes",
         note="PARTIAL: the reasons in the statics classification are human judgement (the theorem checks completeness only); address and hash-seed "
-             "variation is what the OS / allocator / std give across processes and --pad, not an exhaustive exploration; specKeys == ownKeys is "
-             "compared by the driver on every history but not proved.",
+             "variation is what the OS / allocator / std give across processes and --pad, not an exhaustive exploration.",
     ),
     "C02": dict(
         level="proof",
